@@ -32,6 +32,9 @@ func statusCodes(b []byte) []Tok {
 }
 
 func init() {
+	// (a case delivered octet by octet waits for the server to go quiet after every octet: on a loaded machine that takes long; a
+	// handshake that really hangs is reported as `hang` by the case itself, after 5 s without an answer to end-of-input)
+	opTimeout["c06s"], opTimeout["c06c"], opTimeout["c06x"] = 90*time.Second, 90*time.Second, 240*time.Second
 	// c06s <carrier secure 0/1> <has cert 0/1> <n> #chunk1 .. #chunkn
 	//   the chunks are what a client sends; each chunk arrives as a separate transport read
 	//  -> status <codes...> result ok|err|hang [secure 0/1 tech <word> rest #bytes]
